@@ -382,6 +382,7 @@ def variants():
         Variant("c-commit-twice", "bad", insert_after(core, "SamplerCore.execute_iteration", "self.state.commit_current_to_history()", "self.state.commit_current_to_history()"), ["C17.c"]),
         Variant("c-commit-in-branch", "bad", replace_stmt(core, "SamplerCore.execute_iteration", "self.state.commit_current_to_history()", "if save_every is None:\n    self.state.commit_current_to_history()"), ["C17.c"]),
         Variant("a-results-first-call-shares-cache", "bad", replace_stmt(sm, "StateManager.compute_results", "return {k: self._ensure_copy(v) for k, v in self._results_dict.items()}", "out = {k: v for k, v in self._results_dict.items()}\nself._last = dict(out)\nreturn out"), ["C17.a"]),
+        Variant("c-foreign-history-swap", "bad", insert_before(core, "SamplerCore.save_sampler_state", "d = self.state.to_dict()", "self.state._history = dict(self.state._history)"), ["C17.c"], quick=True),
         Variant("c-inplace-on-history", "bad", insert_after(sm, "StateManager.compute_logw_and_logz", "logl_per_iter = self._history.get('logl')", "np.nan_to_num(logl_per_iter[0], copy=False)"), ["C17.c"], quick=True),
         Variant("c-inplace-out-kw", "bad", insert_after(sm, "StateManager.compute_logw_and_logz", "logl_per_iter = self._history.get('logl')", "np.clip(logl_per_iter[-1], -1e300, None, out=logl_per_iter[-1])"), ["C17.c"]),
         Variant("c-inplace-benign-on-copy", "benign", insert_after(sm, "StateManager.compute_logw_and_logz", "logl_all = self.get_history('logl', flat=True)", "np.nan_to_num(logl_all, copy=False, nan=-1e300)")),
